@@ -516,6 +516,7 @@ inductive Action where
   | toggle (token : String)                            -- `ToggleRelay`
   | setSendEnabled (d : Denom) (b : Bool)
   | selfdestruct (c : Addr)
+  | restart                                            -- node restart through a genesis export / import of the module
 
 def applyCall (w : World σ) (c : Addr) : Call σ → World σ
   | .revert => w
@@ -551,6 +552,9 @@ def step (B : Addr → Behaviour σ) (w : World σ) : Action → World σ
   | .toggle t => toggleRelay w t
   | .setSendEnabled d b => { w with bank := { w.bank with sendEnabled := fun d' => if d' = d then b else w.bank.sendEnabled d' } }
   | .selfdestruct c => { w with code := fun a => if a = c then false else w.code a }
+  -- x/aggregate/genesis.go: ExportGenesis = (params, every stored pair); InitGenesis stores the params and every pair
+  -- as exported (with its Enabled flag) and rebuilds both indexes from it: the identity on a consistent registry
+  | .restart => w
 
 def run (B : Addr → Behaviour σ) (w : World σ) : List Action → World σ
   | [] => w
